@@ -27,7 +27,7 @@ REQUIRED = {"quick": ["sk.raw", "sk.der.ssleay", "sk.der.pkcs8", "sk.pem.ssleay"
 def shards(tier, seed):
     q = tier == "quick"
     out = []
-    for c in lib.pick_curves(tier, seed, extra=3):
+    for c in lib.pick_curves(tier, seed, extra=12):
         out.append(("keys_%s" % c.name, dict(kind="keys", cname=c.name, nrand=2 if q else 20, lzsearch=(c.order.bit_length() <= 256) or not q)))
     out.append(("toy", dict(kind="toy", ncurves=3 if q else 10)))
     if not q:
